@@ -975,7 +975,9 @@ func main() {
 		}
 	}
 	if a.Only >= 0 {
-		if a.Only < limBase || a.Only >= reloadBase {
+		if a.Only >= raceBase {
+			raceLeg(3000, uint64(a.Seed), clk, rep)
+		} else if a.Only < limBase || a.Only >= reloadBase {
 			runOne(a.Only, false)
 		}
 		for _, f := range rep.MonitorFailures {
@@ -1037,6 +1039,12 @@ func main() {
 		sh.Add(id, fmt.Sprintf("Consts %d %d %d %d", id, circuitbreaker.Closed, circuitbreaker.HalfOpen, circuitbreaker.Open))
 		rep.CorrCases++
 	}
+	// real-thread search leg (race.go): first ejection || first successful completion of fresh resources
+	nRace := a.Pick(0, 3000, 20000)
+	if a.Search {
+		nRace *= 3
+	}
+	raceLeg(nRace, uint64(a.Seed), clk, rep)
 	rep.DistinctNontrivial = dist.N()
 	rep.Exhaustive = a.Tier == "thorough"
 	rep.Consts["outlier.RuleCheckSlotOrder"] = outlier.RuleCheckSlotOrder
